@@ -2,6 +2,7 @@
 // arming, and notices double destruction / destruction of something never constructed.
 #pragma once
 #include <cstddef>
+#include <map>
 #include <set>
 #include <string>
 
@@ -18,7 +19,7 @@ namespace cs
         long            throw_at      = 0; // 0: never
         int             next_id       = 1;
         int             thrown_id     = 0;
-        std::set<const void*> alive;
+        std::map<const void*, int> alive; // address -> id the element got at its construction
         std::string     problem;
         long            total_constructed = 0, total_destroyed = 0;
         void            arm(long k)
@@ -40,14 +41,25 @@ namespace cs
                 thrown_id = id;
                 throw Injected{id};
             }
-            if (!alive.insert(p).second && problem.empty())
+            if (!alive.insert({p, id}).second && problem.empty())
                 problem = "an element was constructed on top of a live element";
             ++total_constructed;
         }
-        void died(const void* p)
+        void died(const void* p, int id)
         {
-            if (!alive.erase(p) && problem.empty())
-                problem = "an element was destroyed that is not alive (never constructed, or destroyed twice)";
+            auto it = alive.find(p);
+            if (it == alive.end())
+            {
+                if (problem.empty())
+                    problem = "an element was destroyed that is not alive (never constructed, or destroyed twice)";
+            }
+            else
+            {
+                if (it->second != id && problem.empty())
+                    problem = "an element's memory was overwritten before it was destroyed (its destructor saw "
+                              "other contents than its constructor left)";
+                alive.erase(it);
+            }
             ++total_destroyed;
         }
     };
@@ -86,7 +98,7 @@ namespace cs
         }
         ~Inst()
         {
-            ctl().died(this);
+            ctl().died(this, id);
         }
         friend bool operator==(const Inst& a, const Inst& b)
         {
